@@ -67,6 +67,14 @@ TABLE = {
             "executed (route calls under an alarm) and TLC validates distances, interpolated points, merged boundaries and "
             "the ValidRoutes predicate on the returned routes.",
             "TLC, rounding of returned floats to a fixed rational grid with an exactness flag, wall-clock alarm for termination"),
+    "C08": ("Goal.tla / MC_Goal.tla / Trace_Goal.tla",
+            "Three-valued goal membership (time, lattice position regions with exact integer predicates, angle intervals on "
+            "the pi/12 grid incl. lengths above pi and wrapping, velocity; point-mass speed^2 and compass headings) written "
+            "from the statement; TLC checks monotonicity, full-turn invariance, agreement of the closed form with the literal "
+            "exists-k definition and that EITHER occurs only on wrapped end points. All enumerated (goal, state) pairs and "
+            "trajectories plus seeded random ones are executed through GoalRegion.is_reached / PlanningProblem.goal_reached "
+            "and TLC validates verdict, index and totality.",
+            "TLC, the pi/12 angle grid (k*pi/12 as float), lattice geometry"),
 }
 
 PENDING_REASON = "check not built yet in this round (specification module planned in DESIGN.md section 4); not claimed"
